@@ -684,6 +684,8 @@ def sectionOracle (m : MeshF) (sd : V3 Rat → Rat) (colF : Option (V3 Float →
 
 /-! ### the cutting part of `TriMesh::local_split` (modelled: `Model.Cut.localSplitUncapped`) -/
 
+instance : Inhabited (V3 Float) := ⟨⟨0, 0, 0⟩⟩
+
 def fmeshOut (m : List (V3 Float) × List Tri) : String :=
   m.2.foldl (fun s t => s ++ s!" {t.1} {t.2.1} {t.2.2}") (fpts m.1 ++ s!" {m.2.length}")
 
@@ -719,18 +721,44 @@ def cutOracle (m : MeshF) (sd : V3 Rat → Rat) (colF : V3 Float → Nat) (e : R
        if ambiguous then "pass" else
        let und := (m.tris.flatMap fun (a, b, c) => [(a, b), (b, c), (c, a)]).map fun (a, b) => if a < b then (a, b) else (b, a)
        let crossed := und.eraseDups.filter fun (a, b) => (cols[a]! == 1 && cols[b]! == 2) || (cols[a]! == 2 && cols[b]! == 1)
-       let isInput (p : V3 Rat) : Bool := P.toList.any (eqV3 p)
-       let isCrossing (p : V3 Rat) : Bool := rabs (sd p) ≤ t * 1000 && crossed.any fun (a, b) => onSegment P[a]! P[b]! p scale
-       if (L.toList ++ R.toList).any (fun p => !isInput p && !isCrossing p) then "fail new-vertex-not-a-plane-crossing-of-a-crossed-edge" else
+       -- pre-filters in floating point (same numbers): exact equality with an input vertex; bounding box of the edge with a slack
+       let slackE : Float := (Float.ofScientific 1 true 4) * (1 + (m.pts.foldl (fun s p => s + p.x.abs + p.y.abs + p.z.abs) 0))
+       let isInputF (p : V3 Float) : Bool := m.pts.any fun v => v.x == p.x && v.y == p.y && v.z == p.z
+       let PFe := m.pts.toArray
+       let nearSeg (a b p : V3 Float) : Bool :=
+         (if a.x < b.x then a.x else b.x) - slackE ≤ p.x && p.x ≤ (if a.x < b.x then b.x else a.x) + slackE &&
+         (if a.y < b.y then a.y else b.y) - slackE ≤ p.y && p.y ≤ (if a.y < b.y then b.y else a.y) + slackE &&
+         (if a.z < b.z then a.z else b.z) - slackE ≤ p.z && p.z ≤ (if a.z < b.z then b.z else a.z) + slackE
+       let isCrossing (pf : V3 Float) : Bool := let p := q3 pf
+         rabs (sd p) ≤ t * 1000 && crossed.any fun (a, b) => nearSeg PFe[a]! PFe[b]! pf && onSegment P[a]! P[b]! p scale
+       if (lp ++ rp).any (fun p => !isInputF p && !isCrossing p) then "fail new-vertex-not-a-plane-crossing-of-a-crossed-edge" else
        let nl := (cols.toList.filter (· != 2)).length + crossed.length
        let nr := (cols.toList.filter (· != 1)).length + crossed.length
        if L.size != nl || R.size != nr then s!"fail crossing-points-not-shared l={L.size}/{nl} r={R.size}/{nr}" else
        let outs : List (V3 Rat × V3 Rat × V3 Rat) := (lt.map (triPts L)) ++ (rt.map (triPts R))
        let ins : List (V3 Rat × V3 Rat × V3 Rat) := m.tris.map (triPts P)
        let nrm (x : V3 Rat × V3 Rat × V3 Rat) : V3 Rat := (x.2.1.sub x.1).cross (x.2.2.sub x.1)
-       let inside (T x : V3 Rat × V3 Rat × V3 Rat) : Bool :=
-         inTriangle3 T.1 T.2.1 T.2.2 x.1 scale && inTriangle3 T.1 T.2.1 T.2.2 x.2.1 scale && inTriangle3 T.1 T.2.1 T.2.2 x.2.2 scale
-       let owners := outs.map fun x => (x, (List.range ins.length).filter fun k => inside ins[k]! x)
+       -- bounding-box pre-filter in floating point (the coordinates are the same numbers; the slack is 100× the tolerance)
+       let slackF : Float := (Float.ofScientific 1 true 4) * (1 + (m.pts.foldl (fun s p => s + p.x.abs + p.y.abs + p.z.abs) 0))
+       let fmin (a b : Float) : Float := if a < b then a else b
+       let fmax (a b : Float) : Float := if a < b then b else a
+       let bbF (A : Array (V3 Float)) (tr : Tri) : V3 Float × V3 Float :=
+         let a := A[tr.1]!; let b := A[tr.2.1]!; let c := A[tr.2.2]!
+         (⟨fmin a.x (fmin b.x c.x), fmin a.y (fmin b.y c.y), fmin a.z (fmin b.z c.z)⟩,
+          ⟨fmax a.x (fmax b.x c.x), fmax a.y (fmax b.y c.y), fmax a.z (fmax b.z c.z)⟩)
+       let PF := m.pts.toArray; let LF := lp.toArray; let RF := rp.toArray
+       let insB : Array ((V3 Rat × V3 Rat × V3 Rat) × (V3 Float × V3 Float)) :=
+         ((ins.zip m.tris).map fun (T, tr) => (T, bbF PF tr)).toArray
+       let outsB : List ((V3 Rat × V3 Rat × V3 Rat) × (V3 Float × V3 Float)) :=
+         ((lt.map fun tr => (triPts L tr, bbF LF tr)) ++ (rt.map fun tr => (triPts R tr, bbF RF tr)))
+       let inT (T : V3 Rat × V3 Rat × V3 Rat) (p : V3 Rat) : Bool :=
+         eqV3 p T.1 || eqV3 p T.2.1 || eqV3 p T.2.2 || inTriangle3 T.1 T.2.1 T.2.2 p scale
+       let inside (TB : (V3 Rat × V3 Rat × V3 Rat) × (V3 Float × V3 Float)) (x : V3 Rat × V3 Rat × V3 Rat) (xb : V3 Float × V3 Float) : Bool :=
+         let T := TB.1; let (lo, hi) := TB.2
+         lo.x - slackF ≤ xb.1.x && xb.2.x ≤ hi.x + slackF && lo.y - slackF ≤ xb.1.y && xb.2.y ≤ hi.y + slackF &&
+         lo.z - slackF ≤ xb.1.z && xb.2.z ≤ hi.z + slackF &&
+         inT T x.1 && inT T x.2.1 && inT T x.2.2
+       let owners := outsB.map fun (x, xb) => (x, (List.range insB.size).filter fun k => inside insB[k]! x xb)
        if owners.any (fun (_, ks) => ks.isEmpty) then "fail piece-outside-every-input-triangle" else
        if owners.any (fun (x, ks) => ks.length > 1 && maxAbs3 (nrm x) > t) then "pass overlapping-faces" else
        let atol := (1 / 100000000 : Rat) * scale * scale
